@@ -334,7 +334,7 @@ def run(tier: str, only=None) -> core.Result:
     for name, cfgs in configs_for(tier).items():
         if only and name not in only:
             continue
-        out = explorer.explore(RUN, cfgs)
+        out = explorer.explore(RUN, cfgs, fidelity=True)
         sched.absorb(res, name, RUN, out, cfgs)
     res.coverage["exhaustive"] = True
     res.coverage["rule"] = (
